@@ -82,20 +82,25 @@ def make_run(opname, op, dt, backend, ctx_kind, with_filter):
         gcol = H.SymCol("g", Int64())
         cols.append(gcol)
         fcol = H.SymCol("f", Bool()) if with_filter else None
+        f2col = H.SymCol("f2", Bool()) if with_filter == 2 else None
         if fcol:
             cols.append(fcol)
+        if f2col:
+            cols.append(f2col)
+        # a list of filter conditions means their conjunction (every condition must hold)
+        fcond = None if not with_filter else (N.is_true(fcol.nv) if not f2col else z3.And(N.is_true(fcol.nv), N.is_true(f2col.nv)))
         # the row expression the aggregate must see
         if x is not None:
             row = x.nv
             if opname == "sum" and dt == Bool():
                 row = N.NV(row.null, z3.If(row.val, z3.IntVal(1), z3.IntVal(0)))  # documented: sum of bools counts the True values
             if with_filter:
-                row = N.ite(N.is_true(fcol.nv), row, N.null_of(row.sort))
+                row = N.ite(fcond, row, N.null_of(row.sort))
             spec_nv = spec_agg(opname, row)
         else:
             if with_filter:
                 # count(filter=f) counts the rows where f is true
-                one = N.ite(N.is_true(fcol.nv), N.NV(False, z3.IntVal(1)), N.null_of(N.INT))
+                one = N.ite(fcond, N.NV(False, z3.IntVal(1)), N.null_of(N.INT))
                 spec_nv = N.NV(False, N.agg_fns(N.INT)["nn_count"](N.expr_id(one)))
             else:
                 spec_nv = spec_agg(opname, None)
@@ -109,7 +114,7 @@ def make_run(opname, op, dt, backend, ctx_kind, with_filter):
             with H.patched():
                 kw = {}
                 if with_filter:
-                    kw["filter"] = fcol.col
+                    kw["filter"] = fcol.col if not f2col else [fcol.col, f2col.col]
                 if ctx_kind == "window":
                     kw["partition_by"] = gcol.col
                 expr = H.ColFn(op, *([x.col] if x is not None else []), **kw)
@@ -122,7 +127,7 @@ def make_run(opname, op, dt, backend, ctx_kind, with_filter):
 
         paths = explore(body, base_pc=pre)
         vc = VC(
-            f"den_{backend}(compile(ColFn({opname}, x:{dt}{', filter=f' if with_filter else ''}{', partition_by=g' if ctx_kind == 'window' else ''}))) [{ctx_kind}] == "
+            f"den_{backend}(compile(ColFn({opname}, x:{dt}{', filter=' + ('[f, f2]' if with_filter == 2 else 'f') if with_filter else ''}{', partition_by=g' if ctx_kind == 'window' else ''}))) [{ctx_kind}] == "
             "null-ignoring aggregate (null iff no non-null input; count(x) = #non-null, count() = #rows)",
         )
         for p in paths:
@@ -193,7 +198,16 @@ def make_replayer(opname, op, dt, backend, ctx_kind, with_filter):
                 elif model.get("nn_all_x") is True:
                     vals = [True] * 6
             data["x"] = pl.Series("x", vals[:nn] + [None] * (rows - nn), dtype=dt.to_polars())
-        data["f"] = [True, False, True, None, True, False][:rows]
+        if with_filter == 2:
+            rows = max(rows, 4)
+            data["g"] = [1] * rows
+            if dt is not None:
+                vals4 = (vals * 2)[:rows]
+                data["x"] = pl.Series("x", vals4, dtype=dt.to_polars())
+            data["f"] = [True, False, True, None, True, False][:rows]
+            data["f2"] = [False, True, True, True, None, False][:rows]
+        else:
+            data["f"] = [True, False, True, None, True, False][:rows]
         df = pl.DataFrame(data)
         res = {}
         for be in ("polars", "sqlite"):
@@ -203,7 +217,7 @@ def make_replayer(opname, op, dt, backend, ctx_kind, with_filter):
                 eng = sqa.create_engine("sqlite://")
                 df.write_database("t", eng)
                 t = pdt.Table("t", pdt.SqlAlchemy(eng))
-            kw = {"filter": t.f} if with_filter else {}
+            kw = ({"filter": [t.f, t.f2]} if with_filter == 2 else {"filter": t.f}) if with_filter else {}
             e = ColFn(op, *([t.x] if dt is not None else []), **kw)
             try:
                 if ctx_kind == "grouped":
@@ -216,7 +230,8 @@ def make_replayer(opname, op, dt, backend, ctx_kind, with_filter):
             except Exception as ex:  # noqa: BLE001
                 res[be] = f"raises {type(ex).__name__}: {str(ex)[:150]}"
         # documented value computed natively from the data
-        xs = [v for v, f in zip(data["x"].to_list() if dt is not None else [1] * rows, data["f"]) if (f is True or not with_filter)]
+        f2s = data.get("f2", [True] * rows)
+        xs = [v for v, f, f2 in zip(data["x"].to_list() if dt is not None else [1] * rows, data["f"], f2s) if ((f is True and f2 is True) or not with_filter)]
         nnv = [v for v in xs if v is not None]
         doc = {
             "count_star": lambda: len(xs), "count": lambda: len(nnv), "sum": lambda: (sum(int(v) if isinstance(v, bool) else v for v in nnv) if nnv else None),
@@ -241,14 +256,14 @@ def obligations(tier):
         for dt in instances(op):
             for backend in BACKENDS:
                 for ctx_kind in ("grouped", "ungrouped", "window"):
-                    for with_filter in (False, True):
+                    for with_filter in (False, True, 2):
                         f = H.impl_function(bcls[backend], op, (dt,) if dt is not None else ())
                         fns = [disp[backend], H.fn_info(H.col_expr_mod.ColFn.__init__)] + ([H.fn_info(f)] if f else [])
                         if backend == "sqlite":
                             fns.append(H.fn_info(H.sqlite_backend.SqliteImpl.fix_fn_types))
                         obs.append(
                             Obligation(
-                                f"C04/{'A2' if with_filter else 'A1'}/{opname}/{backend}/{ctx_kind}/{dt}",
+                                f"C04/{('A2b' if with_filter == 2 else 'A2') if with_filter else 'A1'}/{opname}/{backend}/{ctx_kind}/{dt}",
                                 "A2" if with_filter else "A1",
                                 f"{opname}({dt}){' with filter=' if with_filter else ''} on {backend} in a {ctx_kind} context ignores nulls / counts as documented",
                                 make_run(opname, op, dt, backend, ctx_kind, with_filter),
